@@ -346,7 +346,14 @@ def gen_path(rnd, sd):
         els.append({'width': w, 'offset': off, 'tag': (i, 0), 'end': end, 'ext': ext})
     tol = rnd.choice([1e-2, 1e-3]) * 10 * G
     p0 = (rnd.randrange(-50, 50) * G, rnd.randrange(-50, 50) * G)
-    fp = {'p0': p0, 'tol': tol, 'max_evals': 1000, 'elements': els, 'simple': False, 'scale_width': rnd.random() < 0.7, 'calls': [],
+    # simple paths (constant width and offset, no transform) are also saved as PATH records and read back from the bytes
+    simple = rnd.random() < 0.2
+    if simple:
+        for e in els:
+            if e['end'] == 1:
+                e['end'] = rnd.choice([0, 2, 3])
+                e['ext'] = (rnd.randrange(0, 9) * G, rnd.randrange(0, 9) * G) if e['end'] == 3 else (0.0, 0.0)
+    fp = {'p0': p0, 'tol': tol, 'max_evals': 1000, 'elements': els, 'simple': simple, 'scale_width': rnd.random() < 0.7, 'calls': [],
           'rep': None, 'props': [], 'xforms': []}
     model = Model(fp)
     wmax = max(e['width'] for e in els) + 2 * max(abs(e['offset']) for e in els)
@@ -362,6 +369,8 @@ def gen_path(rnd, sd):
 
     def laws():
         ex = {}
+        if simple:
+            return ex
         r = rnd.random()
         if r < 0.45:
             spec = []
@@ -396,7 +405,7 @@ def gen_path(rnd, sd):
         return ex
 
     ncalls = rnd.randrange(1, 6)
-    xf_at = rnd.randrange(1, ncalls + 1) if rnd.random() < 0.12 else None      # a transform in the middle of the history
+    xf_at = rnd.randrange(1, ncalls + 1) if rnd.random() < 0.12 and not simple else None      # a transform in the middle of the history
     for ci in range(ncalls):
         if xf_at == ci:
             x = gen_xform(rnd)
@@ -534,7 +543,7 @@ def gen_path(rnd, sd):
         curw[:] = model.endw
         curo[:] = model.endo
         fp['calls'].append(call)
-    if xf_at == ncalls or rnd.random() < 0.25:
+    if not simple and (xf_at == ncalls or rnd.random() < 0.25):
         for _k in range(rnd.randrange(1, 3)):
             x = gen_xform(rnd)
             fp['calls'].append(('xform', x))
@@ -587,8 +596,11 @@ def emit(c, fp):
     toks = []
     for e in fp['elements']:
         toks += [fl(e['width']), fl(e['offset']), e['tag'][0], e['tag'][1]]
-    c.op('rpath', '-', fl(fp['p0'][0]), fl(fp['p0'][1]), len(fp['elements']), fl(fp['tol']), fp['max_evals'], *toks)
-    c.op('rpset', h, 0, int(fp['scale_width']))
+    if fp.get('simple'):
+        c.op('lib', script.hx('L'), fl(1e-6), fl(1e-9))
+        c.op('cell', script.hx('C'), 'l0')
+    c.op('rpath', 'c0' if fp.get('simple') else '-', fl(fp['p0'][0]), fl(fp['p0'][1]), len(fp['elements']), fl(fp['tol']), fp['max_evals'], *toks)
+    c.op('rpset', h, int(bool(fp.get('simple'))), int(fp['scale_width']))
     for i, e in enumerate(fp['elements']):
         c.op('rpel', h, i, e['end'], fl(e['ext'][0]), fl(e['ext'][1]))
     for call in fp['calls']:
@@ -630,6 +642,11 @@ def make_case(i):
     for ei in range(len(fp['elements'])):
         c.op('element_center', h, ei)
     c.op('to_polygons', h)
+    if fp['simple']:
+        c.op('write_gds', 'l0', 'p.gds', 0)
+        c.op('filehex', 'p.gds')
+        c.op('write_oas', 'l0', 'p.oas', fl(0.0), 0, 0)
+        c.op('filehex', 'p.oas')
     c.meta = {'seed': sd, 'path': fp, 'us': us}
     return c
 
@@ -803,6 +820,7 @@ def judge(chk, c, evs):
         chk.violation('C08/to_polygons/count', '%d polygons for %d elements' % (len(polys), nel), rp)
         return
     rnd = random.Random(meta['seed'] + 7)
+    judged_elements = []
     for ei in range(nel):
         spec = fp['elements'][ei]
         # dense samples of the centre curve with half widths
@@ -983,11 +1001,87 @@ def judge(chk, c, evs):
         chk.cov('inside_tests', inside_tests)
         chk.cov('outside_tests', outside_tests)
         chk.cov('elements_checked')
+        judged_elements.append((ei, [(j[0], j[1], j[4]) for j in jo]))
+    if fp['simple'] and not path_records(chk, c, evs, fp, m, judged_elements, tol, scale, rp):
+        return
     chk.cov('cases_judged')
     if any(cl[0] == 'xform' for cl in fp['calls']):
         chk.cov('cases_with_transform')
     if nontrivial:
         chk.fp(c.id)
+
+
+def path_records(chk, c, evs, fp, m, judged, tol, scale, rp):
+    """a simple robust path saved as a PATH record denotes the same centre line and width: the records are read back from the bytes with the
+    independent decoders and compared with the analytic centre curves"""
+    import gds_codec
+    import oas_codec
+    grid = 1e-3
+    fh = {e['path']: e['hex'] for e in evs if e['op'] == 'filehex'}
+    if fh.get('p.gds') is None or fh.get('p.oas') is None:
+        chk.harness_error('%s: PATH files missing' % c.id)
+        return False
+    try:
+        g = gds_codec.decode(bytes.fromhex(fh['p.gds']))
+        o = oas_codec.decode(bytes.fromhex(fh['p.oas']))
+    except (gds_codec.GdsError, oas_codec.OasError) as ex:
+        chk.violation('C08/path-record/decode', 'the file written for a simple robust path is rejected by the independent decoder: %s' % ex, rp)
+        return False
+    gp = [e for cc in g['cells'] for e in cc['elements'] if e['kind'] == 'path']
+    op = [e for cc in o['cells'] for e in cc['elements'] if e['kind'] == 'path']
+    nel = m.nel
+    if len(gp) != nel or len(op) != nel:
+        chk.violation('C08/path-record/count', 'a simple robust path of %d elements was saved as %d GDSII and %d OASIS PATH records' % (nel, len(gp), len(op)), rp)
+        return False
+    nsec = len(m.secs)
+    for ei, joints in judged:
+        spec = fp['elements'][ei]
+        want_hw = 0.5 * m.wid(ei, 0, 0.0) / grid
+        ext = (m.ext[ei][0] / grid, m.ext[ei][1] / grid)
+        fs = [(lambda u, si=si: m.C(ei, si, u)) for si in range(nsec)]
+        for fmt, el in (('GDSII', gp[ei]), ('OASIS', op[ei])):
+            if fmt == 'GDSII':
+                pts = [(x * grid, y * grid) for x, y in el['xy']]
+                wok = abs(abs(el['width']) - 2 * want_hw) <= 1.0
+                pt = {0: 0, 2: 2, 3: 4}[spec['end']]
+                eok = el['pathtype'] == pt and (pt != 4 or (abs(el['bgnextn'] - ext[0]) <= 0.5 + 1e-9 and abs(el['endextn'] - ext[1]) <= 0.5 + 1e-9))
+                wdesc = 'width %s pathtype %s extensions (%s, %s)' % (el['width'], el['pathtype'], el['bgnextn'], el['endextn'])
+            else:
+                pts = [(x * grid, y * grid) for x, y in el['pts']]
+                wok = abs(el['halfwidth'] - want_hw) <= 0.5 + 1e-9
+                wantext = {0: (0.0, 0.0), 2: (want_hw, want_hw), 3: ext}[spec['end']]
+                eok = abs(el['ext'][0] - wantext[0]) <= 0.5 + 1e-9 and abs(el['ext'][1] - wantext[1]) <= 0.5 + 1e-9
+                wdesc = 'half width %s extensions %s' % (el['halfwidth'], el['ext'])
+            if (el['layer'], el['datatype']) != tuple(spec['tag']):
+                chk.violation('C08/path-record/tag', '%s PATH %d carries tag (%s, %s), element has %s' % (fmt, ei, el['layer'], el['datatype'], spec['tag']), rp)
+                return False
+            if not wok or not eok:
+                chk.violation('C08/path-record/width-or-ends', '%s PATH %d: %s; the element has half width %.6g grid units, end style %d, extensions %s grid units' % (
+                    fmt, ei, wdesc, want_hw, spec['end'], ext), rp)
+                return False
+            # the analytic centre curve stays within 3 tolerances + 1.5 grid units of the stored point list ...
+            def in_zone(z):
+                return any(r > 0 and (math.hypot(z[0] - p[0], z[1] - p[1]) <= r or math.hypot(z[0] - q[0], z[1] - q[1]) <= r) for p, q, r in joints)
+            for si, f in enumerate(fs):
+                for k in range(0, NS + 1, 2):
+                    q = f(k / NS)
+                    if in_zone(q):
+                        continue
+                    d = dist_poly(q, pts)
+                    if d > 3 * tol + 1.5 * grid:
+                        chk.violation('C08/path-record/centre-line', '%s PATH %d: the centre curve point (%.7g,%.7g) of section %d is %.4g from the stored point list (tolerance %g, grid %g)' % (
+                            fmt, ei, q[0], q[1], si, d, tol, grid), rp)
+                        return False
+            # ... and every stored point is a centre-curve point rounded to the grid (or a hand-over point at a joint that is not smooth)
+            for p in pts[::max(1, len(pts) // 30)]:
+                if in_zone(p):
+                    continue
+                d = min(dist_curve(p, f) for f in fs)
+                if d > tol + 0.75 * grid:
+                    chk.violation('C08/path-record/off-curve', '%s PATH %d: stored point (%.7g,%.7g) is %.4g from the analytic centre curve' % (fmt, ei, p[0], p[1], d), rp)
+                    return False
+            chk.cov('path_records_checked')
+    return True
 
 
 def _has_grad(fp, si):
